@@ -80,6 +80,7 @@ type c18Case struct {
 	After   []c18Node `json:"-"`
 	Moat    string    `json:"-"`
 	Broken  bool      `json:"-"` // the correspondence with the model failed on this case
+	MNodes  string    `json:"-"` // the model's node list, when it differs from the decoder's
 	Nodes   string    `json:"-"` // what ArchiveDecoder.Next yields: "<end|error> k:hexname,..."
 }
 
@@ -834,7 +835,7 @@ func c18Judge(a vh.Args, o *vh.Oracle, r *vh.Result, c *c18Case) error {
 			mnodes = np[0] + " " + strings.Join(mt, ",")
 		}
 		if mnodes != c.Nodes {
-			c.Broken = true
+			c.Broken, c.MNodes = true, mnodes
 			r.Fail("corr", "corr:C18/nodes", fmt.Sprintf("%s: ArchiveDecoder yields %q, model %q", c.Shape, c.Nodes, mnodes), c)
 			return nil
 		}
@@ -1030,6 +1031,9 @@ func runC18(a vh.Args, o *vh.Oracle, r *vh.Result) error {
 		n = 40000
 	}
 	cases := c18Corpus()
+	if os.Getenv("VH_C18_NOCORPUS") != "" { // debugging aid: only generated cases, to exercise the search stages
+		cases = nil
+	}
 	for len(cases) < n {
 		cases = append(cases, c18Gen(rng))
 	}
@@ -1058,6 +1062,53 @@ func runC18(a vh.Args, o *vh.Oracle, r *vh.Result) error {
 	return c18Discovery(a, o, r, cases, len(cases))
 }
 
+// c18NameSearch: where decoder and model disagree on the node list because the decoder let a
+// name through that the model refuses, that name is tried as the steps of a history
+// (c18Histories): a single probe with such a name often stays inside the destination.
+func c18NameSearch(a vh.Args, r *vh.Result, cases []*c18Case, base int) error {
+	names := map[string]bool{}
+	var order []string
+	for _, c := range cases {
+		if !c.Broken || c.MNodes == "" {
+			continue
+		}
+		impl := strings.Split(strings.SplitN(c.Nodes+" ", " ", 3)[1], ",")
+		model := strings.Split(strings.SplitN(c.MNodes+" ", " ", 3)[1], ",")
+		if len(impl) <= len(model) && !(len(model) == 1 && model[0] == "-") {
+			continue // the decoder is the stricter one here
+		}
+		// the filename elements of this case that the rule refuses, in order of appearance
+		for _, e := range c.Elems {
+			if e.K != "F" {
+				continue
+			}
+			v := unhx(e.S)
+			if (v == "" || v == "." || v == ".." || strings.ContainsAny(v, "/\x00")) && !names[v] && len(order) < 6 {
+				names[v] = true
+				order = append(order, v)
+			}
+		}
+	}
+	r.Extra["names_let_through_by_the_decoder"] = len(order)
+	if len(order) == 0 {
+		return nil
+	}
+	var hist []*c18Case
+	for _, v := range order {
+		hist = append(hist, c18Histories(v, "history-of-let-through-name")...)
+	}
+	r.Note("decoder and model disagree on %d refused names (%q): %d history runs", len(order), order, len(hist))
+	if err := c18RunBatch(a, hist, base); err != nil {
+		return err
+	}
+	for _, c := range hist {
+		if err := c18Judge(a, nil, r, c); err != nil {
+			return err
+		}
+	}
+	return nil
+}
+
 // c18Discovery: see c18disc.go.  Runs on every case whose correspondence broke (the model has
 // no intermediate names, so a writer that uses one shows up there first) and on a sample of
 // successful runs; plants links at what it finds.
@@ -1068,6 +1119,10 @@ func c18Discovery(a vh.Args, o *vh.Oracle, r *vh.Result, cases []*c18Case, base 
 	r.Extra["intermediate_paths_discovered"] = 0
 	r.Extra["discovery_runs"] = 0
 	r.Extra["planted_link_runs"] = 0
+	if err := c18NameSearch(a, r, cases, base); err != nil {
+		return err
+	}
+	base += 1000
 	st, err := exec.LookPath("strace")
 	if err != nil || !c18Install(a.Work, st, "strace") {
 		r.Note("strace is not available: no discovery of intermediate paths")
